@@ -60,6 +60,20 @@ Inductive wshape (stop : expr -> bool) (m : memo) : expr -> lx -> Prop :=
 Definition stopf (m : memo) (e : expr) : bool :=
   match e with ESrc _ => true | _ => hit m e end.
 
+(* the Source objects add_expr gets to see *)
+Fixpoint srcs_of (stop : expr -> bool) (e : expr) : list nat :=
+  match e with
+  | ESrc i => [i]
+  | EApp _ f x _ => if stop e then [] else srcs_of stop f ++ srcs_of stop x
+  | _ => []
+  end.
+
+Lemma srcs_of_ext stop stop' e : (forall e, stop' e = stop e) -> srcs_of stop' e = srcs_of stop e.
+Proof.
+  intros H. induction e as [i | v | i o | i f IHf x IHx fn | j ps b IHb]; cbn [srcs_of]; auto.
+  rewrite H, IHf, IHx. reflexivity.
+Qed.
+
 (* the memo grows by sources only *)
 Definition mext (m m' : memo) : Prop :=
   (forall k n, memo_find k m = Some n -> memo_find k m' = Some n) /\
@@ -161,7 +175,10 @@ Record PostW (e : expr) (c : node) (st : gstate) (L : lx) (st' : gstate) : Prop 
   q_ext : mext (g_memo st) (g_memo st');
   q_new : forall k n, In (k, n) (g_memo st') ->
             In (k, n) (g_memo st) \/
-            (fst k = 0 /\ (n = c \/ g_next st <= n) /\ ~ In n (names L))
+            (fst k = 0 /\ (n = c \/ g_next st <= n) /\ ~ In n (names L));
+  q_src : forall k n, In (k, n) (g_memo st') ->
+            In (k, n) (g_memo st) \/
+            exists i, k = (0, i) /\ In i (srcs_of (stopf (g_memo st)) e)
 }.
 
 Lemma WInv_fresh st : WInv st -> WInv (snd (fresh st)).
@@ -191,6 +208,7 @@ Proof.
   - exact Hinv.
   - lia.
   - apply mext_refl.
+  - auto.
   - auto.
 Qed.
 
@@ -235,7 +253,7 @@ Section Part1.
 
   (* everything after the recursive call for the argument *)
   Lemma app_tailW i f x fn c st o args st1 (a : akind * lx) xc ss se G :
-    cur_ok c st -> WInv st ->
+    cur_ok c st -> WInv st -> memo_find (3, i) (g_memo st) = None ->
     PostW f c st (LSpine c o args) st1 ->
     PostW x xc ss (snd a) se ->
     okarg a = true -> (forall j, fst a <> AAbs j) ->
@@ -248,9 +266,9 @@ Section Part1.
     PostW (EApp i f x fn) c st (LSpine c o (args ++ [a]))
       (mkG (wire add_from false c (anode a) (ci_of a) G) (g_memo se) (g_next se)).
   Proof.
-    intros Hcur Hinv Pf Px Hoka Hnoabs Htr Hmemo Hxc1 Hxc2 Hai HG Hsh'.
-    destruct Pf as [Fsh Fveq Fnames Fspine Fnd Finv Fnext Fext Fnew].
-    destruct Px as [Xsh Xveq Xnames Xspine Xnd Xinv Xnext Xext Xnew].
+    intros Hcur Hinv Hmiss Pf Px Hoka Hnoabs Htr Hmemo Hxc1 Hxc2 Hai HG Hsh'.
+    destruct Pf as [Fsh Fveq Fnames Fspine Fnd Finv Fnext Fext Fnew Fsrc].
+    destruct Px as [Xsh Xveq Xnames Xspine Xnd Xinv Xnext Xext Xnew Xsrc].
     destruct Hcur as [Hc1 [Hc2 Hc3]].
     destruct Hinv as [I1 [I2 I3]].
     assert (Hokf : okb (LSpine c o args) = true) by (eapply wshape_okb; eauto).
@@ -335,6 +353,14 @@ Section Part1.
         * apply HnF in Hy. lia.
         * apply Hkint in Hy. lia.
         * apply (Hnx Hy).
+    - intros k n Hk. unfold st' in Hk. cbn [g_memo] in Hk.
+      cbn [srcs_of stopf]. unfold hit. cbn [key_of]. rewrite Hmiss.
+      destruct (Xsrc k n Hk) as [H | [i0 [-> Hi0]]].
+      + rewrite Hmemo in H. destruct (Fsrc k n H) as [H' | [i0 [-> Hi0]]]; [auto|].
+        right. exists i0. split; [reflexivity|]. apply in_app_iff. auto.
+      + right. exists i0. split; [reflexivity|]. apply in_app_iff. right.
+        rewrite <- (srcs_of_ext (stopf (g_memo st)) (stopf (g_memo ss))); [exact Hi0|].
+        intros e0. rewrite Hmemo. now apply stopf_ext.
   Qed.
 
   Definition StmtW (e : expr) : Prop :=
@@ -373,6 +399,8 @@ Section Part1.
              apply key_eqb_eq in E. subst k. cbn in Hk. congruence.
         * intros k n [[= <- <-] | Hk]; [|left; exact Hk].
           right. cbn. split; [reflexivity|]. split; [left; reflexivity | intros []].
+        * intros k n [[= <- <-] | Hk]; [|left; exact Hk].
+          right. exists i. cbn. auto.
     - (* EVar *)
       cbn [wdom] in Hdom. unfold hit in Hdom. cbn [add_expr].
       destruct (memo_find (key_of (EVar v)) (g_memo st)) as [n|] eqn:Em; [|discriminate].
@@ -395,6 +423,7 @@ Section Part1.
           -- exact I3.
         * lia.
         * apply mext_refl.
+        * auto.
         * auto.
     - (* EApp *)
       cbn [add_expr key_of].
@@ -450,7 +479,7 @@ Section Part1.
         apply (app_tailW i f x true c st o args st1
                  (AFun iN, LSpine (g_next st3) ox argsx) (g_next st3)
                  (snd (fresh st3)) se (add_from (g_next st3) iN (g_tr se)));
-          [exact Hcur | exact Hinv | exact Pf | exact Px | reflexivity | intros j0 E; discriminate E
+          [exact Hcur | exact Hinv | exact Em | exact Pf | exact Px | reflexivity | intros j0 E; discriminate E
           | reflexivity | reflexivity | | | | |].
         * cbn. lia.
         * cbn. lia.
@@ -479,7 +508,7 @@ Section Part1.
         split; [reflexivity|].
         apply (app_tailW i f x false c st o args st1 (AData, Lx) (g_next st1)
                  (snd (fresh st1)) se (g_tr se));
-          [exact Hcur | exact Hinv | exact Pf | exact Px | reflexivity | intros j0 E; discriminate E
+          [exact Hcur | exact Hinv | exact Em | exact Pf | exact Px | reflexivity | intros j0 E; discriminate E
           | reflexivity | reflexivity | | | | |].
         * lia.
         * cbn. lia.
@@ -977,3 +1006,322 @@ Section WF.
       destruct (Hins q Hq) as [_ B]. right. lia.
   Qed.
 End WF.
+
+(* ======================================================================== *)
+(* Part 3: step 2 of add_workflow *)
+
+(* the key under which the expression of a tool is memoised *)
+Definition troot (t : tx) : key :=
+  match t with
+  | TIn _ => (5, 0)
+  | TAnon i => (0, i)
+  | TOp i _ => (2, i)
+  | TApp i _ _ _ => (3, i)
+  end.
+
+Definition not_in (t : tx) : Prop := match t with TIn _ => False | _ => True end.
+
+Lemma ttop_not_in t : ttop t = true -> not_in t.
+Proof. destruct t; cbn; auto. discriminate. Qed.
+
+Lemma inst_key es t e : inst es t = Some e -> not_in t -> key_of e = troot t.
+Proof.
+  destruct t as [k | i | i o | i f x fn]; cbn [inst troot not_in]; try tauto.
+  - intros [= <-] _. reflexivity.
+  - intros [= <-] _. reflexivity.
+  - destruct (inst es f); [|discriminate]. destruct (inst es x); [|discriminate].
+    intros [= <-] _. reflexivity.
+Qed.
+
+Lemma troot_id t : not_in t -> In (snd (troot t)) (tx_ids t).
+Proof. destruct t; cbn; tauto. Qed.
+
+Lemma flat_map_owner {A} (f : A -> list nat) (l : list A) a a' i :
+  NoDup (flat_map f l) -> In a l -> In a' l -> In i (f a) -> In i (f a') -> a = a'.
+Proof.
+  induction l as [|b l IH]; [intros _ []|]. cbn [flat_map]. intros Hnd Ha Ha' Hi Hi'.
+  assert (Hb : forall c, In c l -> In i (f b) -> In i (f c) -> False).
+  { intros c Hc H1 H2. apply (NoDup_app_disj _ _ i Hnd H1). apply in_flat_map. eauto. }
+  destruct Ha as [-> | Ha]; destruct Ha' as [-> | Ha']; auto.
+  - exfalso. eapply Hb; eauto.
+  - exfalso. eapply Hb; eauto.
+  - apply IH; auto. eapply NoDup_app_r; eauto.
+Qed.
+
+Lemma hit_wdom m e : hit m e = true -> wdom m e = true.
+Proof. destruct e; cbn [wdom]; auto. intros ->. reflexivity. Qed.
+
+(* the expression parsed for a tool is in the domain of Part 1 *)
+Lemma wdom_inst m es : forall t,
+  twfb (length es) t = true ->
+  (forall k e, nth_error es k = Some e -> stopf m e = true) ->
+  (forall i, In i (tx_ids t) -> memo_find (2, i) m = None /\ memo_find (3, i) m = None) ->
+  exists e, inst es t = Some e /\ wdom m e = true /\ (tspine t = true -> spine_miss m e = true).
+Proof.
+  induction t as [k | i | i o | i f IHf x IHx fn]; cbn [twfb inst tx_ids tspine]; intros Hw Hes Hids.
+  - apply Nat.ltb_lt in Hw. destruct (nth_error es k) as [e|] eqn:E.
+    + exists e. split; [reflexivity|]. split; [|discriminate].
+      specialize (Hes k e E). destruct e; cbn [stopf] in Hes; try (now apply hit_wdom). reflexivity.
+    + apply nth_error_None in E. lia.
+  - exists (ESrc i). split; [reflexivity|]. split; [reflexivity | discriminate].
+  - exists (EOp i o). split; [reflexivity|]. split; [reflexivity|]. intros _.
+    cbn [spine_miss]. unfold hit. cbn [key_of]. destruct (Hids i) as [-> _]; cbn; auto.
+  - apply andb_true_iff in Hw. destruct Hw as [Hw Hx]. apply andb_true_iff in Hw.
+    destruct Hw as [Hsf Hwf].
+    assert (Hx' : twfb (length es) x = true /\ (fn = true -> tspine x = true)).
+    { destruct fn; [apply andb_true_iff in Hx; destruct Hx; auto | split; [exact Hx | discriminate]]. }
+    destruct Hx' as [Hwx Hsx].
+    destruct (IHf Hwf Hes) as [f' [Ef [Df Sf]]].
+    { intros i0 Hi0. apply Hids. cbn. right. apply in_app_iff. auto. }
+    destruct (IHx Hwx Hes) as [x' [Ex [Dx Sx]]].
+    { intros i0 Hi0. apply Hids. cbn. right. apply in_app_iff. auto. }
+    rewrite Ef, Ex. exists (EApp i f' x' fn). split; [reflexivity|].
+    assert (Hmiss : hit m (EApp i f' x' fn) = false).
+    { unfold hit. cbn [key_of]. destruct (Hids i) as [_ ->]; cbn; auto. }
+    split.
+    + cbn [wdom]. rewrite Hmiss, (Sf Hsf), Df. cbn [orb andb].
+      destruct fn; [rewrite (Sx (Hsx eq_refl)), Dx; reflexivity | exact Dx].
+    + intros _. cbn [spine_miss]. rewrite Hmiss, (Sf Hsf). reflexivity.
+Qed.
+
+Lemma tshape_mono lf lf' an an' t L :
+  (forall k n, lf k = Some n -> lf' k = Some n) ->
+  (forall i n, an i = Some n -> an' i = Some n) ->
+  tshape lf an t L -> tshape lf' an' t L.
+Proof.
+  intros H1 H2 H. induction H.
+  - apply ts_in. auto.
+  - apply ts_anon. auto.
+  - apply ts_op.
+  - apply ts_data; auto.
+  - apply ts_fun; auto.
+Qed.
+
+(* the tree add_expr built is the application tree of the tool expression *)
+Lemma tshape_of_wshape stop m es : forall t e L,
+  inst es t = Some e ->
+  (forall k e, nth_error es k = Some e -> stop e = true) ->
+  (forall i o, In i (tx_ids t) -> stop (EOp i o) = false) ->
+  (forall i f x fn, In i (tx_ids t) -> stop (EApp i f x fn) = false) ->
+  wshape stop m e L ->
+  tshape (fun k => match nth_error es k with Some e => memo_find (key_of e) m | None => None end)
+         (fun i => memo_find (0, i) m) t L.
+Proof.
+  induction t as [k | i | i o | i f IHf x IHx fn]; cbn [inst tx_ids]; intros e L Hi Hes Hop Happ Hs.
+  - pose proof (Hes k e Hi) as Hst. inversion Hs; subst; try congruence.
+    apply ts_in. now rewrite Hi.
+  - injection Hi as <-. inversion Hs; subst. apply ts_anon. assumption.
+  - injection Hi as <-. inversion Hs; subst.
+    + rewrite (Hop i o) in *; [discriminate | cbn; auto].
+    + apply ts_op.
+  - destruct (inst es f) as [f'|] eqn:Ef; [|discriminate].
+    destruct (inst es x) as [x'|] eqn:Ex; [|discriminate]. injection Hi as <-.
+    inversion Hs; subst.
+    + rewrite (Happ i f' x' fn) in *; [discriminate | cbn; auto].
+    + apply ts_data.
+      * apply (IHf f'); auto; intros; [apply Hop | apply Happ]; cbn; right; apply in_app_iff; auto.
+      * apply (IHx x'); auto; intros; [apply Hop | apply Happ]; cbn; right; apply in_app_iff; auto.
+    + apply ts_fun.
+      * apply (IHf f'); auto; intros; [apply Hop | apply Happ]; cbn; right; apply in_app_iff; auto.
+      * apply (IHx x'); auto; intros; [apply Hop | apply Happ]; cbn; right; apply in_app_iff; auto.
+Qed.
+
+Lemma srcs_of_inst stop es : forall t e,
+  inst es t = Some e ->
+  (forall k e, nth_error es k = Some e -> stop e = true) ->
+  forall i, In i (srcs_of stop e) -> In i (tx_ids t) \/ exists k, nth_error es k = Some (ESrc i).
+Proof.
+  induction t as [k | i0 | i0 o | i0 f IHf x IHx fn]; cbn [inst tx_ids]; intros e Hi Hes i Hin.
+  - specialize (Hes k e Hi). destruct e; cbn [srcs_of] in Hin; try (destruct Hin; fail).
+    + destruct Hin as [<- | []]. right. eauto.
+    + rewrite Hes in Hin. destruct Hin.
+  - injection Hi as <-. destruct Hin as [<- | []]. left. cbn. auto.
+  - injection Hi as <-. destruct Hin.
+  - destruct (inst es f) as [f'|] eqn:Ef; [|discriminate].
+    destruct (inst es x) as [x'|] eqn:Ex; [|discriminate]. injection Hi as <-.
+    cbn [srcs_of] in Hin. destruct (stop (EApp i0 f' x' fn)); [destruct Hin|].
+    apply in_app_iff in Hin. destruct Hin as [Hin | Hin].
+    + destruct (IHf f' eq_refl Hes i Hin) as [H | H]; [|auto]. left. cbn. right. apply in_app_iff. auto.
+    + destruct (IHx x' eq_refl Hes i Hin) as [H | H]; [|auto]. left. cbn. right. apply in_app_iff. auto.
+Qed.
+
+Lemma minj_set m k n :
+  minj m -> (memo_find k m = Some n \/ forall k', memo_find k' m <> Some n) -> minj ((k, n) :: m).
+Proof.
+  intros Hm Hc k1 k2 n0. cbn [memo_find].
+  destruct (key_eqb k1 k) eqn:E1; destruct (key_eqb k2 k) eqn:E2.
+  - apply key_eqb_eq in E1. apply key_eqb_eq in E2. congruence.
+  - apply key_eqb_eq in E1. subst k1. intros [= <-] H2. destruct Hc as [Hc | Hc].
+    + apply (Hm _ _ _ Hc H2).
+    + exfalso. apply (Hc _ H2).
+  - apply key_eqb_eq in E2. subst k2. intros H1 [= <-]. destruct Hc as [Hc | Hc].
+    + apply (Hm _ _ _ H1 Hc).
+    + exfalso. apply (Hc _ H1).
+  - apply Hm.
+Qed.
+
+(* lookups that succeed keep their answer *)
+Definition mpres (m m' : memo) : Prop :=
+  forall k n, memo_find k m = Some n -> memo_find k m' = Some n.
+
+Lemma mpres_refl m : mpres m m.
+Proof. intros k n H. exact H. Qed.
+
+Lemma mpres_trans a b c : mpres a b -> mpres b c -> mpres a c.
+Proof. intros H1 H2 k n H. apply H2, H1, H. Qed.
+
+Lemma mpres_set m k n : (memo_find k m = None \/ memo_find k m = Some n) -> mpres m ((k, n) :: m).
+Proof.
+  intros Hc k0 n0 H. cbn [memo_find]. destruct (key_eqb k0 k) eqn:E; [|exact H].
+  apply key_eqb_eq in E. subst k0. destruct Hc as [Hc | Hc]; rewrite Hc in H; congruence.
+Qed.
+
+Definition flowT (T : list (nat * lx)) : list triple := flat_map (fun p => flow (snd p)) T.
+Definition namesT (T : list (nat * lx)) : list node := flat_map (fun p => names (snd p)) T.
+
+(* the node that feeds input k of a tool / the node of an anonymous source *)
+Definition lfm (m : memo) (es : list expr) (k : nat) : option node :=
+  match nth_error es k with Some e => memo_find (key_of e) m | None => None end.
+Definition anm (m : memo) (i : nat) : option node := memo_find (0, i) m.
+
+Lemma lfm_mono m m' es k n : mpres m m' -> lfm m es k = Some n -> lfm m' es k = Some n.
+Proof. unfold lfm. intros Hm. destruct (nth_error es k); [apply Hm | discriminate]. Qed.
+
+Lemma flowT_app T1 T2 t : In t (flowT (T1 ++ T2)) <-> In t (flowT T1) \/ In t (flowT T2).
+Proof. unfold flowT. rewrite flat_map_app, in_app_iff. tauto. Qed.
+
+Lemma namesT_app T1 T2 : namesT (T1 ++ T2) = namesT T1 ++ namesT T2.
+Proof. unfold namesT. apply flat_map_app. Qed.
+
+Section S2.
+  Variable add_from add_from_r : node -> node -> list triple -> list triple.
+  Hypothesis Hok : add_from_ok add_from.
+  Hypothesis Hokr : add_from_ok add_from_r.
+  Variable wf : wflow.
+  Variable pt : bool.
+  Hypothesis Hwf : wf_okb wf = true.
+  Variable ex : etab.
+  Hypothesis Hex : ExOK wf pt ex.
+
+  Let srcs := w_srcs wf.
+  Let apps := w_apps wf.
+  Let rnk := rank wf.
+
+  Definition own_ids (a : tapp) : list nat := tx_ids (a_tx a) ++ a_ind a.
+
+  Lemma own_all a i : In a apps -> In i (own_ids a) -> In i (all_ids wf).
+  Proof. intros Ha Hi. unfold all_ids. apply in_flat_map. exists a. auto. Qed.
+
+  Lemma own_unique a a' i : In a apps -> In a' apps -> In i (own_ids a) -> In i (own_ids a') -> a = a'.
+  Proof.
+    intros Ha Ha' Hi Hi'. apply (flat_map_owner own_ids apps a a' i); auto.
+    apply (NoDup_app_r srcs). apply (nd_ids wf Hwf).
+  Qed.
+
+  Lemma own_not_src a i : In a apps -> In i (own_ids a) -> ~ In i srcs.
+  Proof.
+    intros Ha Hi Hs. apply (NoDup_app_disj _ _ i (nd_ids wf Hwf) Hs). eapply own_all; eauto.
+  Qed.
+
+  Lemma tool_expr r e : elookup r ex = Some e -> ~ In r srcs ->
+    exists a es, In a apps /\ a_out a = r /\ find_app wf r = Some a /\
+      feeds wf pt ex (a_ins a) (a_ind a) = Some es /\ inst es (a_tx a) = Some e /\
+      key_of e = troot (a_tx a) /\ In (snd (troot (a_tx a))) (tx_ids (a_tx a)).
+  Proof.
+    intros He Hns. destruct Hex as [_ [_ [_ X3]]].
+    destruct (X3 r e He Hns) as [a [es [Hf [Hfe Hi]]]].
+    destruct (find_app_some wf r a Hf) as [Ha Eo].
+    destruct (app_parts wf Hwf a Ha) as [_ [_ [_ [Htop _]]]].
+    exists a, es. repeat (split; [assumption|]). split.
+    - eapply inst_key; eauto. now apply ttop_not_in.
+    - apply troot_id. now apply ttop_not_in.
+  Qed.
+
+  Lemma src_expr s : In s srcs -> elookup s ex = Some (ESrc s).
+  Proof. intros Hs. destruct Hex as [_ [X1 _]]. now apply X1. Qed.
+
+  Lemma key_inj r r' e e' :
+    elookup r ex = Some e -> elookup r' ex = Some e' -> key_of e = key_of e' -> r = r'.
+  Proof.
+    intros He He' Hk.
+    destruct (in_dec Nat.eq_dec r srcs) as [Hs | Hs]; destruct (in_dec Nat.eq_dec r' srcs) as [Hs' | Hs'].
+    - rewrite (src_expr r Hs) in He. rewrite (src_expr r' Hs') in He'.
+      injection He as <-. injection He' as <-. cbn in Hk. congruence.
+    - rewrite (src_expr r Hs) in He. injection He as <-.
+      destruct (tool_expr r' e' He' Hs') as [a [es [Ha [_ [_ [_ [_ [Kk Ki]]]]]]]].
+      rewrite Kk in Hk. rewrite <- Hk in Ki. cbn [key_of snd] in Ki.
+      exfalso. apply (own_not_src a r Ha); [|exact Hs]. unfold own_ids. apply in_app_iff. auto.
+    - rewrite (src_expr r' Hs') in He'. injection He' as <-.
+      destruct (tool_expr r e He Hs) as [a [es [Ha [_ [_ [_ [_ [Kk Ki]]]]]]]].
+      rewrite Kk in Hk. rewrite Hk in Ki. cbn [key_of snd] in Ki.
+      exfalso. apply (own_not_src a r' Ha); [|exact Hs']. unfold own_ids. apply in_app_iff. auto.
+    - destruct (tool_expr r e He Hs) as [a [es [Ha [Eo [_ [_ [_ [Kk Ki]]]]]]]].
+      destruct (tool_expr r' e' He' Hs') as [a' [es' [Ha' [Eo' [_ [_ [_ [Kk' Ki']]]]]]]].
+      rewrite Kk, Kk' in Hk. rewrite Hk in Ki.
+      assert (a = a').
+      { apply (own_unique a a' (snd (troot (a_tx a')))); auto; unfold own_ids; apply in_app_iff; auto. }
+      subst a'. congruence.
+  Qed.
+
+  Record WS (X : list triple) (st : gstate) (T : list (nat * lx)) : Prop := mkWS {
+    s_inv : WInv st;
+    s_memo : forall r L, In (r, L) T ->
+      exists e, elookup r ex = Some e /\ memo_find (key_of e) (g_memo st) = Some (lnode L);
+    s_veq : veq (g_tr st) (flowT T ++ X);
+    s_nd : NoDup (namesT T);
+    s_lt : forall x, In x (namesT T) -> x < g_next st;
+    s_src : forall i n, In ((0, i), n) (g_memo st) -> ~ In n (namesT T);
+    s_shape : forall r L, In (r, L) T -> ~ In r srcs ->
+      exists a es, find_app wf r = Some a /\ feeds wf pt ex (a_ins a) (a_ind a) = Some es /\
+        tshape (lfm (g_memo st) es) (anm (g_memo st)) (a_tx a) L;
+    s_leaf : forall r L, In (r, L) T -> In r srcs -> exists n, L = LLeaf n;
+    s_closed : forall r L a, In (r, L) T -> find_app wf r = Some a ->
+      forall q, In q (a_ins a) -> In q (map fst T);
+    s_ndT : NoDup (map fst T);
+    s_keys : forall k n, In (k, n) (g_memo st) -> 2 <= fst k ->
+      exists r L e, In (r, L) T /\ elookup r ex = Some e /\ k = key_of e;
+    s_own : forall i n, In ((0, i), n) (g_memo st) ->
+      (In i srcs /\ In i (map fst T)) \/
+      (exists a, In a apps /\ In (a_out a) (map fst T) /\ In i (own_ids a))
+  }.
+
+  (* what is in the memo under the key of a resource's expression was put there
+     when that resource was processed *)
+  Lemma hit_in_T X st T r e n :
+    WS X st T -> elookup r ex = Some e -> memo_find (key_of e) (g_memo st) = Some n ->
+    exists L, In (r, L) T /\ lnode L = n.
+  Proof.
+    intros W He Hm.
+    assert (HrT : In r (map fst T)).
+    { destruct (le_lt_dec 2 (fst (key_of e))) as [Hk | Hk].
+      - destruct (s_keys _ _ _ W _ _ (memo_find_In _ _ _ Hm) Hk) as [r' [L' [e' [HT [He' Ek]]]]].
+        rewrite (key_inj r r' e e' He He' Ek). apply in_map_iff. exists (r', L'). auto.
+      - assert (Htag : fst (key_of e) <> 1).
+        { destruct (in_dec Nat.eq_dec r srcs) as [Hr | Hr].
+          - rewrite (src_expr r Hr) in He. injection He as <-. cbn. discriminate.
+          - destruct (tool_expr r _ He Hr) as [a [es [Ha [_ [Hf [_ [_ [Kk _]]]]]]]].
+            rewrite Kk. destruct (app_parts wf Hwf a Ha) as [_ [_ [_ [Htop _]]]].
+            apply ttop_not_in in Htop. destruct (a_tx a); cbn in *; try discriminate; tauto. }
+        assert (exists i, e = ESrc i) as [i ->].
+        { destruct e; cbn in Hk, Htag; try lia. eauto. }
+        cbn [key_of] in Hm.
+        destruct (s_own _ _ _ W i n (memo_find_In _ _ _ Hm)) as [[Hs HT] | [a [Ha [HT Hi]]]].
+        + destruct (in_dec Nat.eq_dec r srcs) as [Hr | Hr].
+          * rewrite (src_expr r Hr) in He. now injection He as ->.
+          * destruct (tool_expr r _ He Hr) as [a [es [Ha [_ [_ [_ [_ [Kk Ki]]]]]]]].
+            cbn [key_of] in Kk. rewrite <- Kk in Ki. cbn [snd] in Ki. exfalso.
+            apply (own_not_src a i Ha); [|exact Hs]. unfold own_ids. apply in_app_iff. auto.
+        + destruct (in_dec Nat.eq_dec r srcs) as [Hr | Hr].
+          * rewrite (src_expr r Hr) in He. injection He as ->. exfalso.
+            apply (own_not_src a i Ha Hi Hr).
+          * destruct (tool_expr r _ He Hr) as [a' [es [Ha' [Eo [_ [_ [_ [Kk Ki]]]]]]]].
+            cbn [key_of] in Kk. rewrite <- Kk in Ki. cbn [snd] in Ki.
+            assert (a = a').
+            { apply (own_unique a a' i); auto. unfold own_ids. apply in_app_iff. auto. }
+            subst a'. now rewrite <- Eo. }
+    apply in_map_iff in HrT. destruct HrT as [[r0 L] [E HT]]. cbn in E. subst r0.
+    exists L. split; [exact HT|].
+    destruct (s_memo _ _ _ W r L HT) as [e' [He' Hm']]. rewrite He in He'. injection He' as <-.
+    rewrite Hm in Hm'. now injection Hm'.
+  Qed.
+End S2.
